@@ -604,12 +604,14 @@ func runCallDepth(c caseSpec) workerResult {
 func runAutoload(c caseSpec, dir string) workerResult {
 	var res workerResult
 	nsDir := filepath.Join(dir, "ns")
-	_ = os.MkdirAll(filepath.Join(nsDir, "sub"), 0o755)
-	// every third name lives in a sub-namespace whose directory the class path manager
-	// discovers (and records) on demand
+	_ = os.MkdirAll(nsDir, 0o755)
+	// every third name lives in a sub-namespace of its own, whose directory the class path
+	// manager discovers (and records in its namespace tree) on demand
 	nsOf := func(i int) (ns, d string) {
 		if i%3 == 2 {
-			return "vx10ns\\sub", filepath.Join(nsDir, "sub")
+			d := filepath.Join(nsDir, fmt.Sprintf("s%d", i))
+			_ = os.MkdirAll(d, 0o755)
+			return fmt.Sprintf("vx10ns\\s%d", i), d
 		}
 		return "vx10ns", nsDir
 	}
